@@ -153,7 +153,6 @@ def handleBin (j : Json) : Except String Verdict := do
   let s := normRes (binSpec A op x y)
   let cons := oracleConsistent raws x y
   let tags := [s!"bin:{(binName op)}:{kindStr ka}{kindStr kb}",
-               if binSupported op ka kb then "supported" else "unsupported",
                if isFloatTok x || isFloatTok y then "float" else "int"] ++
               (match s with | .raised _ => ["value-op-raises"] | .typeError => ["value-op-raises"] | _ => []) ++
               (if (leanBin op x y).isSome then ["lean-arith"] else ["oracle-arith"])
@@ -230,7 +229,6 @@ def handleIop (j : Json) : Except String Verdict := do
   let cons := oracleConsistent raws x y
   let alias := match j.getObjVal? "alias" with | .ok (Json.bool true) => true | _ => false
   let tags := [s!"iop:{fStrD j "op" "?"}:{kindStr ka}{kindStr kb}",
-               if iopSupported i ka kb then "supported" else "unsupported",
                if isFloatTok x || isFloatTok y then "float" else "int"] ++
               (if alias then ["alias"] else [])
   pure { agree := decide (m = impl), spec := cons && decide (impl = s), model := iresToJson m, tags,
@@ -312,20 +310,18 @@ def handleScalarDeep (j : Json) (op : String) (dflt : Int) (d' : Nat) : Except S
     | .error _ => none
   let shape2 ← asInts (← field j "shape2")
   let ns := shape2.map Int.toNat
-  let n0 := ns.headD 0
-  let m : Except String (Fib Int Unit) := if isAdd then saddDeep n0 else smulDeep dflt d' a
-  let raises := match m with | .ok _ => false | .error _ => true
-  let tags := [s!"fiber:{op}", "depth2", s!"dflt{dflt}", if raises then "deep-raises" else "deep-trivial"]
-  let modelJ := match m with | .ok _ => jList [] | .error e => Json.str ("ERR:" ++ e)
+  let m : T (d' + 2) := if isAdd then saddT dflt s (d' + 2) ns a else smulT dflt s (d' + 2) a
+  let tags := [s!"fiber:{op}", "depth2", s!"dflt{dflt}", "deep-scalar"] ++
+    (if (content dflt (d' + 2) a).isEmpty then ["emptyA"] else [])
+  let modelJ := treeToJson (d' + 2) m
   match implOut, implErr with
   | some out, _ =>
     let spec :=
       if isAdd then (gridPoints ns).all (fun p => denseAt dflt (d' + 2) out p == s + denseAt dflt (d' + 2) a p)
       else pointwiseB dflt (d' + 2) (fun x _ => if x ≠ dflt then s * x else dflt) a a out
-    pure { agree := !raises && (content dflt (d' + 2) out).isEmpty, spec, model := modelJ, tags }
+    pure { agree := sameDenseB dflt (d' + 2) m out, spec, model := modelJ, tags }
   | none, some e =>
-    let same := match m with | .error me => ("ERR:" ++ me) == e | .ok _ => false
-    pure { agree := same, spec := false, model := modelJ, tags, why := s!"value-returning scalar form raised {e}" }
+    pure { agree := false, spec := false, model := modelJ, tags, why := s!"value-returning scalar form raised {e}" }
   | none, none => pure { agree := false, spec := false, model := modelJ, tags, why := "unparsable output" }
 
 def handleFiber (j : Json) : Except String Verdict := do
